@@ -72,17 +72,24 @@ Qed.
 
 (* mframe_schedule() makes exactly the calls of the per-tick core for the task mask after the update, i.e. for every task 0..31 in
    ascending order the calls of mframe_schedule_set(task) if the task is active after the update and nothing otherwise *)
+Lemma tick_core : forall cur s, fst (mf_schedule cur s) = fw_mframe_schedule (mf_tasks_after cur s) cur.
+Proof. intros. unfold mf_schedule. cbv zeta. destruct (fw_mframe_schedule (mf_tasks_after cur s) cur); reflexivity. Qed.
+
+Lemma core_flat : forall m cur cs, fw_mframe_schedule m cur = FwOk cs ->
+  cs = flat_map (fun i => if Z.testbit (u32 m) i then calls_of i cur else []) (range 0 32).
+Proof. intros m cur cs H. exact (fw_sched_tasks_flat (u32 m) cur (range 0 32) cs H). Qed.
+
+Lemma tick_flat : forall cur s cs, fst (mf_schedule cur s) = FwOk cs -> cs = flat_map (mf_task_calls cur s) (range 0 32).
+Proof.
+  intros cur s cs H. rewrite tick_core in H. rewrite (core_flat _ _ _ H).
+  apply flat_map_ext_in. intros i Hi. apply range_in in Hi.
+  unfold mf_task_calls. rewrite (u32_bit _ i ltac:(lia)). reflexivity.
+Qed.
+
 Lemma tick_calls : forall cur s,
   fst (mf_schedule cur s) = fw_mframe_schedule (mf_tasks_after cur s) cur /\
   forall cs, fst (mf_schedule cur s) = FwOk cs -> cs = flat_map (mf_task_calls cur s) (range 0 32).
-Proof.
-  intros cur s.
-  assert (E : fst (mf_schedule cur s) = fw_mframe_schedule (mf_tasks_after cur s) cur).
-  { unfold mf_schedule. cbv zeta. destruct (fw_mframe_schedule (mf_tasks_after cur s) cur); reflexivity. }
-  split; [exact E|]. intros cs H. rewrite E in H. unfold fw_mframe_schedule in H.
-  rewrite (fw_sched_tasks_flat _ _ _ _ H). apply flat_map_ext_in. intros i Hi. apply range_in in Hi.
-  unfold mf_task_calls. rewrite (u32_bit _ i ltac:(lia)). reflexivity.
-Qed.
+Proof. intros cur s. split; [apply tick_core | apply tick_flat]. Qed.
 
 Lemma fires_active : forall cur s t kind sacch, Z.testbit (mf_tasks_after cur s) t = true ->
   mf_fires cur s t kind sacch = fw_fires t kind sacch cur.
